@@ -209,29 +209,30 @@ func init() {
 					case strings.HasPrefix(o.body, "<<"):
 						var t int
 						fmt.Sscanf(o.body, "<< /T %d", &t)
-						v = L(I(0), I(t))
+						v = L(I(0), I(t), I(0))
 					default:
 						var t int
 						fmt.Sscanf(o.body, "%d", &t)
-						v = L(I(0), I(t))
+						v = L(I(0), I(t), I(1))
 					}
 					contents[off] = content{o.num, v}
 				}
 				for sn, members := range rev.packed {
 					mv := VL{}
 					for _, m := range members {
-						var t int
+						var t, isInt int
 						if strings.HasPrefix(m.body, "<<") {
 							fmt.Sscanf(m.body, "<< /T %d", &t)
 						} else {
 							fmt.Sscanf(m.body, "%d", &t)
+							isInt = 1
 						}
-						mv = append(mv, L(I(m.num), I(t)))
+						mv = append(mv, L(I(m.num), I(t), I(isInt)))
 					}
 					contents[findOff(sn)] = content{sn, L(I(2), mv)}
 				}
 				if rev.xrefStm {
-					contents[findOff(rev.xrefNum)] = content{rev.xrefNum, L(I(0), I(-4))}
+					contents[findOff(rev.xrefNum)] = content{rev.xrefNum, L(I(0), I(-4), I(0))}
 				}
 			}
 			for off, c := range contents {
